@@ -186,7 +186,14 @@ def pe_carve(pre_n, lfanew, size, tail):
     return True, True
 
 
-OBLIGATIONS.append(Ob("pe_carve_given_size", pe_carve, [("pre_n", "int:0:3"), ("lfanew", "int:64:72"), ("size", "int:0:120"), ("tail", "int:0:8")],
-                      tier="both", timeout=600, layer="C", functions=["multidecoder.decoders.pe_file.find_pe_files"],
-                      stubs=["pe_file.pe_size := arbitrary non-negative int (pefile is third-party C-like parsing, not encodable)"],
-                      bound="MZ at offset 0..3, e_lfanew 64..72, reported PE size 0..120 (may exceed the data), 0..8 trailing bytes"))
+for _pn, _lf, _tl in ((0, 64, 0), (2, 64, 3), (1, 68, 1)):
+    def _pe(size, _pn=_pn, _lf=_lf, _tl=_tl):
+        return pe_carve(_pn, _lf, size, _tl)
+
+    _nm = f"pe_carve_given_size_p{_pn}_l{_lf}_t{_tl}"
+    _pe.__name__ = _nm
+    globals()[_nm] = _pe
+    OBLIGATIONS.append(Ob(_nm, _pe, [("size", "int:0:90")], tier="both", timeout=600, layer="C",
+                          functions=["multidecoder.decoders.pe_file.find_pe_files"],
+                          stubs=["pe_file.pe_size := arbitrary non-negative int (pefile's parsing is not encodable)"],
+                          bound=f"MZ at offset {_pn}, e_lfanew {_lf}, {_tl} trailing bytes, FREE reported PE size 0..90 (may exceed the data)"))
